@@ -72,11 +72,11 @@ CLAIMS = {
             'Trusted: typing rules in sfa/e_typing.py, degree table from the property. One reviewed exception: Vst std=0 -> x (the statement\'s own degenerate case). '
             'Offset invariance and negation symmetry are NOT decided.',
             'DESIGN.md §5 C12', 'E5'),
-    'C10': ('proof', 'static analysis: linearity type inference (ZERO/COEF/LIN/TOP) over the value graph + data-dependent-branch census',
-            'Proof of linearity over the reals for the 8 linear views: all floats are linear forms with input-independent coefficients, no affine term, '
+    'C10': ('other', 'static analysis: linearity type inference (ZERO/COEF/LIN/TOP) over the value graph + data-dependent-branch census + steady-state DC gain from extracted linear forms',
+            'Linearity clause proved over the reals for the 8 linear views: all floats are linear forms with input-independent coefficients, no affine term, '
             'no data-dependent comparison; structural induction gives superposition for all streams, scalars and N. Window-average members additionally have the '
             'exact-window/mirrored-accumulator structure that gives DC gain 1.',
-            'Trusted: typing rules; real arithmetic (the f64 "up to rounding" half is not decided). DC gain of the recursive members is covered numerically in C09/C11 when claimed.',
+            'Trusted: typing rules; real arithmetic (the f64 "up to rounding" half is not decided). DC gain: numeric, enumerated N; known finding CyberCycle N=4,5 (hence level other, not proof).',
             'DESIGN.md §5 C10', 'E4'),
     'C04': ('other', 'static analysis: linearity typing (no data-dependent branch) + window/accumulator rules + convex-update term matching',
             'Sma/Ema/Alma: no data-dependent branch, exact window, mirrored sum/weight aggregates, Ema x·w+e·(1−w) with w = alpha/(N+1) ∈ (0,1] and '
